@@ -113,6 +113,18 @@ def variants(name, h):
     return out
 
 
+_CATS = {}
+
+
+def cats_of(cname, ctx):
+    if cname not in _CATS:
+        try:
+            _CATS[cname] = sorted({k.split("__")[0] for k in ctx.to_dict() if len(k.split("__")) == 3})
+        except Exception:
+            _CATS[cname] = []
+    return _CATS[cname]
+
+
 def run(chk):
     warnings.simplefilter("ignore")
     quick = chk.tier == "quick"
@@ -209,6 +221,13 @@ def run(chk):
             try:
                 ok1 = ctx.verify(pw, text, **kw)
                 ok2 = ctx.verify("X" + pw, text, **kw)
+                # contexts that define user categories: attribution and verification are the same for every category, and the record of a
+                # scheme under a category is a variant of that very scheme
+                for cat in cats_of(cname, ctx):
+                    if ctx.identify(text, category=cat) != s or ctx.handler(s, category=cat).name != s or ctx.verify(pw, text, category=cat, **kw) is not True \
+                            or ctx.verify("X" + pw, text, category=cat, **kw) is not False:
+                        ok1 = f"under category {cat!r}: identify={ctx.identify(text, category=cat)}, handler={ctx.handler(s, category=cat).name}"
+                        break
             except Exception as ex:
                 ok1, ok2 = f"{type(ex).__name__}: {ex}"[:100], None
             chk.evaluations += 2
